@@ -689,8 +689,12 @@ def run(ctx):
             if au.const_num(other) is None or not (isinstance(side, ast.Attribute) and au.base_name(side) == "self" and au.path(side).count(".") == 1):
                 continue
             # the body only adds terms that carry the tested parameter as a factor
-            terms = [x for x in iff.body if isinstance(x, ast.AugAssign) and isinstance(x.op, (ast.Add, ast.Sub))]
-            if not terms or len(terms) != len([x for x in iff.body if not isinstance(x, (ast.Pass, ast.Expr))]):
+            inner = list(au.walk_stmts(iff.body))
+            terms = [x for x in inner if isinstance(x, ast.AugAssign) and isinstance(x.op, (ast.Add, ast.Sub))]
+            # besides the terms: expression statements, case distinctions and locals that prepare the terms
+            rest = [x for x in inner if x not in terms and not isinstance(x, (ast.Pass, ast.Expr, ast.If))
+                    and not (isinstance(x, ast.Assign) and all(isinstance(t0, ast.Name) for t0 in x.targets))]
+            if not terms or rest:
                 continue
             if not all(any(au.U(y) == au.U(side) for y in au.walk_local(x.value)) for x in terms):
                 continue
